@@ -762,22 +762,34 @@ func exceeds(v ssa.Value, p ssa.Value, assume map[ssa.Value]bool, depth int) boo
 // growingCell: every back-edge source is dominated by a block of the loop that stores
 // append(load(cell), …) into cell.
 func growingCell(l *natLoop, cell ssa.Value) bool {
+	// the same storage: the same address value, or the same field of the same
+	// loop-invariant struct pointer (`s.ts` is re-addressed at every use)
+	same := func(a ssa.Value) bool {
+		if a == cell {
+			return true
+		}
+		fa, ok1 := a.(*ssa.FieldAddr)
+		fc, ok2 := cell.(*ssa.FieldAddr)
+		return ok1 && ok2 && fa.X == fc.X && fa.Field == fc.Field && invariantIn(l, fc.X, 0)
+	}
 	var grow []*ssa.BasicBlock
 	for b := range l.body {
 		for _, ins := range b.Instrs {
 			st, ok := ins.(*ssa.Store)
-			if !ok || st.Addr != cell {
+			if !ok || !same(st.Addr) {
 				continue
 			}
 			call, ok := st.Val.(*ssa.Call)
 			if !ok {
-				continue
+				return false // the cell is also overwritten with something else
 			}
 			if bi, ok := call.Call.Value.(*ssa.Builtin); !ok || bi.Name() != "append" || len(call.Call.Args) < 2 {
-				continue
+				return false
 			}
-			if ld, ok := call.Call.Args[0].(*ssa.UnOp); ok && ld.X == cell {
+			if ld, ok := call.Call.Args[0].(*ssa.UnOp); ok && same(ld.X) {
 				grow = append(grow, b)
+			} else {
+				return false
 			}
 		}
 	}
